@@ -318,6 +318,203 @@ func setpgidUnconditional(fn *ast.FuncDecl) bool {
 	return lits > 0 && lits == good && bad == 0
 }
 
+// ---- facts about how requests are served (the class "overlapping requests") -------------------------------
+
+// goLits: the function literals of fn that are started with `go`.
+func goLits(fn *ast.FuncDecl) []*ast.FuncLit {
+	var out []*ast.FuncLit
+	ast.Inspect(fn, func(x ast.Node) bool {
+		if g, ok := x.(*ast.GoStmt); ok {
+			if fl, ok := g.Call.Fun.(*ast.FuncLit); ok {
+				out = append(out, fl)
+			}
+		}
+		return true
+	})
+	return out
+}
+
+func within(lits []*ast.FuncLit, n ast.Node) bool {
+	for _, l := range lits {
+		if n.Pos() >= l.Pos() && n.End() <= l.End() {
+			return true
+		}
+	}
+	return false
+}
+
+// methodCalls: the calls `<…>.<name>(…)` inside fn.
+func methodCalls(fn ast.Node, name string) []*ast.CallExpr {
+	var out []*ast.CallExpr
+	ast.Inspect(fn, func(x ast.Node) bool {
+		if c, ok := x.(*ast.CallExpr); ok {
+			if sel, ok := c.Fun.(*ast.SelectorExpr); ok && sel.Sel.Name == name {
+				out = append(out, c)
+			}
+		}
+		return true
+	})
+	return out
+}
+
+// servedInGoroutine: is every call of one of the named methods inside fn made from a goroutine the handler
+// starts (`go func() { … }()`), and is there at least one such call for every name.
+func servedInGoroutine(fn *ast.FuncDecl, names ...string) bool {
+	lits := goLits(fn)
+	for _, n := range names {
+		cs := methodCalls(fn, n)
+		if len(cs) == 0 {
+			return false
+		}
+		for _, c := range cs {
+			if !within(lits, c) {
+				return false
+			}
+		}
+	}
+	return true
+}
+
+// lookupInHandler: is every READ of `<…>.activeTasks[…]` in fn outside the goroutines it starts (the handler
+// itself looks the task up, eventLoop runs one handler at a time), and is there one.
+func lookupInHandler(fn *ast.FuncDecl) bool {
+	lits := goLits(fn)
+	n, ok := 0, true
+	ast.Inspect(fn, func(x ast.Node) bool {
+		ix, is := x.(*ast.IndexExpr)
+		if !is {
+			return true
+		}
+		if sel, is := ix.X.(*ast.SelectorExpr); is && sel.Sel.Name == "activeTasks" {
+			n++
+			if within(lits, ix) {
+				ok = false
+			}
+		}
+		return true
+	})
+	return n > 0 && ok
+}
+
+// entryRemovedInGoroutine: is every `delete(<…>.activeTasks, …)` of fn inside a goroutine it starts (the
+// entry outlives the handler), and is there one.
+func entryRemovedInGoroutine(fn *ast.FuncDecl) bool {
+	lits := goLits(fn)
+	n, ok := 0, true
+	ast.Inspect(fn, func(x ast.Node) bool {
+		c, is := x.(*ast.CallExpr)
+		if !is || len(c.Args) < 1 {
+			return true
+		}
+		if id, is := c.Fun.(*ast.Ident); is && id.Name == "delete" {
+			if sel, is := c.Args[0].(*ast.SelectorExpr); is && sel.Sel.Name == "activeTasks" {
+				n++
+				if !within(lits, c) {
+					ok = false
+				}
+			}
+		}
+		return true
+	})
+	return n > 0 && ok
+}
+
+func isFieldSel(e ast.Expr, field string) bool {
+	sel, ok := e.(*ast.SelectorExpr)
+	return ok && sel.Sel.Name == field
+}
+
+// copiesFieldInGoroutine: does a goroutine started by fn begin by copying `<…>.<field>` into a local variable
+// (the field is read only once the goroutine runs).
+func copiesFieldInGoroutine(fn *ast.FuncDecl, field string) bool {
+	for _, l := range goLits(fn) {
+		found := false
+		ast.Inspect(l, func(x ast.Node) bool {
+			if as, ok := x.(*ast.AssignStmt); ok && as.Tok == token.DEFINE && len(as.Rhs) == 1 && isFieldSel(as.Rhs[0], field) {
+				found = true
+			}
+			return true
+		})
+		if found {
+			return true
+		}
+	}
+	return false
+}
+
+// assignsNilToField: does fn assign nil to `<…>.<field>`.
+func assignsNilToField(fn *ast.FuncDecl, field string) bool {
+	found := false
+	ast.Inspect(fn, func(x ast.Node) bool {
+		as, ok := x.(*ast.AssignStmt)
+		if !ok || as.Tok != token.ASSIGN || len(as.Lhs) != len(as.Rhs) {
+			return true
+		}
+		for i, l := range as.Lhs {
+			if id, ok := as.Rhs[i].(*ast.Ident); ok && id.Name == "nil" && isFieldSel(l, field) {
+				found = true
+			}
+		}
+		return true
+	})
+	return found
+}
+
+// callsThroughField: does fn call `<…>.<field>.<method>(…)` (the field is dereferenced at the time of the call).
+func callsThroughField(fn *ast.FuncDecl, field, method string) bool {
+	for _, c := range methodCalls(fn, method) {
+		if isFieldSel(c.Fun.(*ast.SelectorExpr).X, field) {
+			return true
+		}
+	}
+	return false
+}
+
+// doesNotWait: fn has no loop, no channel receive, no select without a default clause and no call of a
+// function that blocks for a time (Sleep, After, Wait, Tick, NewTimer, NewTicker): it runs straight through.
+func doesNotWait(fn *ast.FuncDecl) bool {
+	ok := true
+	ast.Inspect(fn, func(x ast.Node) bool {
+		switch n := x.(type) {
+		case *ast.ForStmt, *ast.RangeStmt:
+			ok = false
+		case *ast.UnaryExpr:
+			if n.Op == token.ARROW {
+				ok = false
+			}
+		case *ast.SelectStmt:
+			hasDefault := false
+			for _, c := range n.Body.List {
+				if cc, is := c.(*ast.CommClause); is && cc.Comm == nil {
+					hasDefault = true
+				}
+			}
+			if !hasDefault {
+				ok = false
+			}
+		case *ast.CallExpr:
+			if sel, is := n.Fun.(*ast.SelectorExpr); is {
+				switch sel.Sel.Name {
+				case "Sleep", "After", "Wait", "Tick", "NewTimer", "NewTicker":
+					ok = false
+				}
+			}
+		}
+		return true
+	})
+	return ok
+}
+
+// takesLock: does fn call Lock or RLock on anything.
+func takesLock(fns ...*ast.FuncDecl) bool {
+	for _, fn := range fns {
+		if len(methodCalls(fn, "Lock"))+len(methodCalls(fn, "RLock")) > 0 {
+			return true
+		}
+	}
+	return false
+}
+
 func genExecTask(repo string) (string, error) {
 	ctl, err := parseFile(repo + "/executor/executable/controllabletask.go")
 	if err != nil {
@@ -346,7 +543,9 @@ func genExecTask(repo string) (string, error) {
 	bkill := findFunc(bas, "basicTaskBase", "Kill")
 	hkill := findFunc(hnd, "", "handleKillEvent")
 	hlaunch := findFunc(hnd, "", "handleLaunchEvent")
-	if kill == nil || launch == nil || doLaunch == nil || ensure == nil || bkill == nil || hkill == nil || hlaunch == nil {
+	hmsg := findFunc(hnd, "", "handleMessageEvent")
+	startBasic := findFunc(bas, "basicTaskBase", "startBasicTask")
+	if kill == nil || launch == nil || doLaunch == nil || ensure == nil || bkill == nil || hkill == nil || hlaunch == nil || hmsg == nil || startBasic == nil {
 		return "", fmt.Errorf("an anchored function of C17 is gone")
 	}
 	// the teardown walk: switch currentState { case "X": evt = "E"; destination = "D" }
@@ -442,6 +641,16 @@ func genExecTask(repo string) (string, error) {
 	fmt.Fprintf(&b, "/-- does basicTaskBase.Kill signal anything (a call named Kill or Signal) (go/ast). -/\ndef basicKillSignals : Bool := %s\n\n", lb(callsAny(bkill, "Kill", "Signal")))
 	fmt.Fprintf(&b, "/-- does ControllableTask.Launch compare taskCmd.Process with nil before using its Pid (go/ast). -/\ndef launchChecksProcessNil : Bool := %s\n\n", lb(comparesWithNil(launch, "Process")))
 	fmt.Fprintf(&b, "/-- does prepareTaskCmd give every child a process group of its own: every SysProcAttr literal has `Setpgid: true`, the constant, whatever the command's shape (go/ast). -/\ndef setpgidUnconditional : Bool := %s\n\n", lb(setpgidUnconditional(prep)))
+	b.WriteString("/-! how requests are served: the facts behind the model of overlapping requests (go/ast) -/\n\n")
+	fmt.Fprintf(&b, "/-- handleMessageEvent makes every Transition and Trigger call from a goroutine it starts. -/\ndef messagesServedInGoroutine : Bool := %s\n\n", lb(servedInGoroutine(hmsg, "Transition", "Trigger")))
+	fmt.Fprintf(&b, "/-- handleKillEvent calls Kill from a goroutine it starts. -/\ndef killServedInGoroutine : Bool := %s\n\n", lb(servedInGoroutine(hkill, "Kill")))
+	fmt.Fprintf(&b, "/-- both handlers read activeTasks[…] themselves, outside the goroutines they start. -/\ndef lookupInHandler : Bool := %s\n\n", lb(lookupInHandler(hmsg) && lookupInHandler(hkill)))
+	fmt.Fprintf(&b, "/-- handleKillEvent removes the entry from activeTasks only inside the goroutine. -/\ndef killRemovesEntryInGoroutine : Bool := %s\n\n", lb(entryRemovedInGoroutine(hkill)))
+	fmt.Fprintf(&b, "/-- the reaper goroutine of startBasicTask copies t.taskCmd when it runs (not before it is started). -/\ndef reaperCopiesCmdInGoroutine : Bool := %s\n\n", lb(copiesFieldInGoroutine(startBasic, "taskCmd")))
+	fmt.Fprintf(&b, "/-- startBasicTask calls Start() through the field t.taskCmd. -/\ndef startThroughField : Bool := %s\n\n", lb(callsThroughField(startBasic, "taskCmd", "Start")))
+	fmt.Fprintf(&b, "/-- basicTaskBase.Kill sets t.taskCmd = nil. -/\ndef basicKillClearsCmd : Bool := %s\n\n", lb(assignsNilToField(bkill, "taskCmd")))
+	fmt.Fprintf(&b, "/-- ensureBasicTaskKilled runs straight through: no loop, no receive, no blocking select, no Sleep/After/Wait. -/\ndef stopDoesNotWait : Bool := %s\n\n", lb(doesNotWait(ensure)))
+	fmt.Fprintf(&b, "/-- startBasicTask, ensureBasicTaskKilled or basicTaskBase.Kill take a lock. -/\ndef basicTaskLocks : Bool := %s\n\n", lb(takesLock(startBasic, ensure, bkill)))
 	b.WriteString("end Gen.ExecTask\n")
 	return b.String(), nil
 }
